@@ -35,6 +35,7 @@ def gen_case(rng, tier, flavour=None):
     strs = {}         # id -> {"open": bool, "paused": bool}
     nw = ns = 0
     bg_active = set()
+    bg_budget = 0
     closed = False
     paused_writes = 0
     n = rng.randrange(10, 34 if tier == "quick" else 45)
@@ -148,18 +149,22 @@ def gen_case(rng, tier, flavour=None):
             else:
                 break
             continue
-        if bg_live and x < 0.12:
+        if bg_live and (x < 0.12 or bg_budget <= 0):
+            # bounded concurrency: the checker explores every interleaving of the background
+            # writes with what the driver does meanwhile
             w = rng.choice(bg_live)
             ops.append({"op": "join", "w": w})
             bg_active.discard(w)
             continue
-        if not pausing and x > 0.955 and live_w:
+        if bg_live:
+            bg_budget -= 1
+        if not pausing and x > 0.955 and live_w and not bg_live:
             cand = [w for w in live_w if w not in bg_active and any(k in VIRT for k in writers[w]["chans"])]
             if cand:
                 w = rng.choice(cand)
                 vs = [k for k in writers[w]["chans"] if k in VIRT]
                 kss = []
-                for _ in range(rng.randrange(2, 6)):
+                for _ in range(rng.randrange(2, 5)):
                     ks = rand_keys(vs, 1)
                     if malformed and rng.random() < 0.1:
                         others = [k for k in VIRT if k not in writers[w]["chans"]]
@@ -168,6 +173,7 @@ def gen_case(rng, tier, flavour=None):
                     kss.append(ks)
                 ops.append({"op": "bg_writes", "w": w, "kss": kss})
                 bg_active.add(w)
+                bg_budget = rng.randrange(1, 5)
                 continue
         if x < 0.42:
             if any_paused:
